@@ -10,10 +10,12 @@ RULE = ("for every bounded member reachable from a request (bytes/text/list capa
         "model's; at and below the limit the value must come back whole, above it the request must be rejected (or the member dropped / truncated for the "
         "documented lossy members). Non-trivial = distinct (command, member path, probe)")
 ASSUMPTIONS = ["GetAssertion's and ClientPin's rpId are zero-copy &str without a bound; 'relying-party id 256' is the id member of the relying-party entity"]
-TECHNIQUE = "Coq proof: reflexive limits table on regenerated declarations + exact-capacity lemmas of the typed decoder; boundary differential run"
-LEVEL_TEXT = ("Kernel-checked table of every capacity and integer width of the request-side declarations regenerated from /repo against the limits the "
-              "property lists; lemmas that the decoder accepts a byte/text string iff its length is within the capacity and returns it verbatim; boundary "
-              "probes of every bounded member inside valid messages, compared with the extracted model.")
+TECHNIQUE = "Coq proof: reflexive limits table on the regenerated declarations; exact-capacity theorems of the typed decoder for byte strings, text, byte arrays, integers and element counts (both sides of each boundary, any content); every accepted well-typed value is returned unaltered (round-trip theorem); boundary differential run"
+LEVEL_TEXT = ("Kernel-checked table of every capacity and integer width of the request-side declarations regenerated from /repo against the limits the property lists. Theorems: the decoder accepts a "
+              "byte/text string iff its length is within the capacity and returns it verbatim; exact-length arrays; integers up to the type maximum unchanged and the next value rejected; c12_count_exact: "
+              "a list of any well-typed elements is delivered whole when its count is at most N and rejected once N+1 elements have been read (heapless::Vec rule); c12_accepted_values_unaltered: every "
+              "well-typed value of every type, at the declarations regenerated from /repo in every feature set, comes back from the decoder exactly. Boundary probes of every bounded member inside "
+              "valid messages are compared with the extracted model.")
 feature_sets = default_feature_sets
 
 INT_MAX = {"u8": 255, "u16": 65535, "u32": 2**32 - 1, "u64": 2**64 - 1, "usize": 2**64 - 1}
